@@ -95,6 +95,13 @@ def gen_world(rng, profile):
         t["blocks"] = [{"name": "q0", "stmts": g.pstmts(tp, 1, 2)}]
         root = "T"
     scn["root"] = root
+    # a list of objects in the mid or top class: elements are reached by index, take the list's randomness, carry their
+    # class's blocks and callbacks
+    if r.random() < profile.get("olists", 0.35):
+        host = classes[r.choice(["M", root])]
+        host["olists"] = [{"name": "ol0", "cls": r.choice(leafs), "n": r.randint(1, 2), "rand": r.random() < 0.75}]
+        hp = rel_scalars(scn, "M" if host is classes["M"] else root)
+        host["blocks"].append({"name": "zz0", "stmts": g.pstmts([x for x in hp if "ol0" in x[0]] + hp[:2], 1, 2)})
     # pre_randomize of some classes assigns a value to one of the class's non-random fields
     for cn, cd in classes.items():
         nr = [f for f in cd["fields"] if not f["rand"] and not f.get("enums")]
@@ -103,9 +110,9 @@ def gen_world(rng, profile):
             lo, hi = (-(1 << (f["w"] - 1)), (1 << (f["w"] - 1)) - 1) if f["s"] else (0, (1 << f["w"]) - 1)
             cd["preset"] = {"field": f["name"], "val": r.randint(lo, hi)}
     # keep the number of random bits enumerable: narrow declared-random scalars beyond 13 bits
-    sp = W.scalar_paths(scn)
+    sp = [x for x in W.scalar_paths(scn) if not x[1].get("is_size")]
     ops = []
-    opaths = W.object_paths(scn)
+    opaths = [x for x in W.object_paths(scn) if x[1] is not None]
     ninst = 1
     for _ in range(r.randint(2, profile.get("nops", 7))):
         x = r.random()
@@ -214,7 +221,7 @@ def compare_world(scn, k, c, m):
 
 
 def _has_cb(scn, cname, which):
-    c = cname
+    c = cname            # (None: a list, which has no class and no callbacks)
     while c is not None:
         if scn["classes"][c].get(which):
             return True
